@@ -239,13 +239,59 @@ func runHistory(r *lib.Run, idx int) {
 	// every (contract, slot) value ever written on any fork, to classify stale reads
 	ever := map[[2]felt.Felt]bool{}
 
+	// readers opened before a step and read after it: a reader for block b obtained by number
+	// or hash keeps answering for block b while the chain moves on (RPC handlers hold their
+	// reader while the synchroniser stores and reverts). Only readers whose block is still
+	// canonical after the step are judged.
+	type heldReader struct {
+		node, view string
+		b          uint64
+		hash       felt.Felt
+		sr         core.StateReader
+		closer     func() error
+	}
 	for _, s := range steps {
+		var held []heldReader
+		if cur.Len() > 0 {
+			head := uint64(cur.Len() - 1)
+			bs := map[uint64]bool{head: true, uint64(rng.IntN(cur.Len())): true}
+			if head > 0 {
+				bs[head-1] = true
+			}
+			for name, n := range nodes {
+				if stuck[name] {
+					continue
+				}
+				for b := range bs {
+					if sr, closer, err := n.BC.StateAtBlockNumber(b); err == nil {
+						held = append(held, heldReader{name, "held-number", b, *cur.Blocks[b].Block.Hash, sr, closer})
+					}
+					if sr, closer, err := n.BC.StateAtBlockHash(cur.Blocks[b].Block.Hash); err == nil {
+						held = append(held, heldReader{name, "held-hash", b, *cur.Blocks[b].Block.Hash, sr, closer})
+					}
+				}
+			}
+		}
+		readHeld := func() {
+			for _, h := range held {
+				if !stuck[h.node] && int(h.b) < cur.Len() && cur.Blocks[h.b].Block.Hash.Equal(&h.hash) {
+					c := &checker{r: r, idx: idx, backend: h.node, steps: append(append([]step{}, done...), s), ps: ps, builder: map[bool]string{false: "legacy", true: "new"}[builderNew]}
+					c.checkView(h.view, h.b, uint64(cur.Len()-1), h.sr, cur.States[h.b], func(a, k felt.Felt) bool { return ever[[2]felt.Felt{a, k}] })
+					r.Eval(c.reads)
+					r.Count("point_reads_through_readers_held_across_a_step", c.reads)
+					r.Count("readers_held_across_a_step:"+s.Kind, 1)
+				}
+				h.closer()
+			}
+			held = nil
+		}
 		switch s.Kind {
 		case "grow":
 			if cur.Len()+s.N > maxLen {
 				s.N = maxLen - cur.Len()
 			}
 			if s.N <= 0 {
+				readHeld()
 				continue
 			}
 			from := cur.Len()
@@ -278,6 +324,7 @@ func runHistory(r *lib.Run, idx int) {
 				s.N = cur.Len()
 			}
 			if s.N == 0 {
+				readHeld()
 				continue
 			}
 			for name, n := range nodes {
@@ -301,6 +348,7 @@ func runHistory(r *lib.Run, idx int) {
 				return
 			}
 		}
+		readHeld()
 		done = append(done, s)
 		if cur.Len() == 0 {
 			continue
